@@ -547,4 +547,65 @@ theorem findOrAddCore_ref_effect (m : Mgr) (ext : Nat → Nat) (i : Nat) (v w : 
     rw [hg, indeg_added hadd, hr.cnt u c hc]
     congr 1; omega
 
+/-- exact counts only read `tbl` and `ref` -/
+theorem RefExact.congr {m m' : Mgr} {ext : Nat → Nat} (h : RefExact m ext) (h1 : m'.tbl = m.tbl)
+    (h2 : m'.ref = m.ref) : RefExact m' ext :=
+  ⟨by rw [h1, h2]; exact h.dom, by rw [h1, h2]; exact h.cnt, by rw [h2]; exact h.extZero⟩
+
+theorem requestReordering_frame (m : Mgr) :
+    (requestReordering m).2.tbl = m.tbl ∧ (requestReordering m).2.ref = m.ref ∧
+    (requestReordering m).2.pred = m.pred ∧ (requestReordering m).2.minFree = m.minFree ∧
+    (requestReordering m).2.cache = m.cache := by
+  unfold requestReordering
+  split
+  · exact ⟨rfl, rfl, rfl, rfl, rfl⟩
+  · split
+    · split <;> exact ⟨rfl, rfl, rfl, rfl, rfl⟩
+    · split <;> exact ⟨rfl, rfl, rfl, rfl, rfl⟩
+
+/-- `find_or_add` (with the reordering request of the decorated entry points) keeps counts exact -/
+theorem findOrAdd_refExact (m : Mgr) (ext : Nat → Nat) (i : Int) (v w : Int)
+    (hw : WF m.tbl) (hr : RefExact m ext) : RefExact (findOrAdd i v w m).2 ext := by
+  have hfr := requestReordering_frame m
+  have hr1 : RefExact (requestReordering m).2 ext := hr.congr hfr.1 hfr.2.1
+  have hw1 : WF (requestReordering m).2.tbl := by rw [hfr.1]; exact hw
+  have key : ∀ m1 : Mgr, WF m1.tbl → RefExact m1 ext →
+      RefExact ((do if i < 0 then M.throw .value
+                    findOrAddCore i.toNat v w : M Int) m1).2 ext := by
+    intro m1 hw1 hr1
+    by_cases hi : i < 0
+    · simp only [hi, if_true, bind, M.bind', M.throw]; exact hr1
+    · simp only [hi, if_false]
+      exact findOrAddCore_refExact m1 ext i.toNat v w hw1 hr1
+  unfold findOrAdd
+  simp only [bind, M.bind', M.get]
+  by_cases hc : m.ctx = true
+  · simp only [hc, if_true, M.bind']
+    cases hq : requestReordering m with
+    | mk r m1 =>
+      rw [hq] at hr1 hw1
+      cases r with
+      | error e => exact hr1
+      | ok x =>
+        have := key m1 hw1 hr1
+        simp only [bind] at this
+        exact this
+  · have := key m hw hr
+    simp only [bind] at this
+    simp only [hc]
+    exact this
+
+/-- `find_or_add` never removes or changes a node -/
+theorem findOrAddCore_ext (m : Mgr) (i : Nat) (v w : Int)
+    (hdom : ∀ u : Int, m.tbl.Mem u → (m.ref[u.natAbs]?).isSome) :
+    Ext m.tbl (findOrAddCore i v w m).2.tbl := by
+  rcases findOrAddCore_cases m i v w hdom with h | ⟨-, -, -, hfree, n, c1, c2, -, -, -, -, -, h⟩
+  · rw [h]; exact Ext.refl _
+  · rw [h]
+    refine ⟨rfl, fun k x hk => ?_⟩
+    simp only [Tbl.node?, TreeMap.getElem?_insert]
+    have : ¬ m.minFree = k := by
+      intro he; subst he; rw [hfree] at hk; cases hk
+    simpa [this, Tbl.node?] using hk
+
 end DD
